@@ -78,7 +78,7 @@ CHUNK = 1
 SHRINK_RUNS = 25
 SHRINK_S = 420.0
 BOOT_TIMEOUT = 420.0
-REF_FORMAT = 6     # bump when the canonical record of a reference run changes
+REF_FORMAT = 7     # bump when the canonical record of a reference run changes
 DET_SAMPLE = {"quick": 6, "thorough": 40}   # a scenario is several interpreters
 SECOND_POOL_WORKERS = 6
 
@@ -165,11 +165,15 @@ def generate(rng: random.Random, batch: dict) -> dict:
     if dom == "dcs":
         boots = []
         seeds = [rng.getrandbits(40)]
+        reuse = rng.random() < 0.5
+        if reuse:
+            seeds = seeds * 2     # the same combination executed twice
         for b in range(1):
             boots.append({"hashseed": str(rng.randint(0, 4000)),
                           "clock": {"mode": "fixed", "tick": 1000},
                           "shuffle_seed": rng.getrandbits(30), "crash": None,
-                          "actions": [{"a": "run_nolog", "seeds": seeds}]})
+                          "actions": [{"a": "run_nolog", "seeds": seeds,
+                                       "reuse_setup": reuse}]})
         return {"domain": dom, "setups": setups, "instances": instances,
                 "budget": budget, "boots": boots}
     if dom == "instgen":
@@ -298,12 +302,21 @@ def directed(tier: str) -> list:
                  "boots": [
         {"hashseed": "52", "clock": {"mode": "fixed", "tick": 1000},
          "shuffle_seed": 9, "crash": None,
-         "actions": [{"a": "run_nolog", "seeds": [4711]}]}]})
+         "actions": [{"a": "run_nolog", "seeds": [4711, 4711],
+                      "reuse_setup": True}]}]})
     docs.append({"domain": "dc", "setups": ["dc:cmaes"],
                  "instances": ["dc:stuart_landau:linear"], "budget": 3,
                  "boots": [
         {"hashseed": "41", "clock": {"mode": "fixed", "tick": 1000},
          "shuffle_seed": 7, "crash": None,
+         "actions": [{"a": "run", "n_runs": [1], "warmup": False,
+                      "pre_warmup": False}]}]})
+    # six state dimensions of which two enter the figure of merit
+    docs.append({"domain": "dc", "setups": ["dc:cmaes"],
+                 "instances": ["dc:three_coupled_oscillators:ann0"],
+                 "budget": 3, "boots": [
+        {"hashseed": "42", "clock": {"mode": "fixed", "tick": 1000},
+         "shuffle_seed": 8, "crash": None,
          "actions": [{"a": "run", "n_runs": [1], "warmup": False,
                       "pre_warmup": False}]}]})
     return docs
@@ -364,9 +377,13 @@ def boot_main(argv: list) -> int:
             # environment (known finding); without one they can
             for sid in setups:
                 for iid in instances:
+                    exe = None
                     for seed in action["seeds"]:
-                        exe = jobs.make_setup(sid, budget)(
-                            jobs.make_instance(iid))
+                        if exe is None or not action.get("reuse_setup"):
+                            # (with reuse_setup one Execution object and its
+                            # components serve all runs, as Execution allows)
+                            exe = jobs.make_setup(sid, budget)(
+                                jobs.make_instance(iid))
                         exe.set_log_all_fes(False)
                         exe.set_rand_seed(int(seed))
                         with exe.execute() as process:
@@ -518,6 +535,34 @@ def ref_main(argv: list) -> int:
         out["value"] = repr(obj.evaluate(y))
         out["lower"] = repr(obj.lower_bound())
         out["upper"] = repr(obj.upper_bound())
+        if spec["inst"].split(":")[0] in ("dc", "dcs"):
+            # the figure of merit as documented, from the simulator's rows
+            # alone: exp(mean(log(J+1)))-1 over the training cases, 1e200 as
+            # soon as one case leaves [0, 1e100]
+            import numpy as np
+            from moptipyapps.dynamic_control.ode import run_ode
+            from simkit.oracles import ode as oorc
+            system, ctrl = inst.system, inst.controller
+            js = []
+            for start in np.array(system.training_starting_states):
+                ode = run_ode(np.array(start, dtype=float),
+                              system.equations, ctrl.controller,
+                              np.array(y, dtype=float),
+                              int(system.control_dims),
+                              int(system.training_steps),
+                              float(system.training_time))
+                j = oorc.j_reference(ode, int(system.state_dims),
+                                     int(system.state_dims_in_j),
+                                     float(system.gamma))
+                if not 0.0 <= j <= 1e100:
+                    js = None
+                    break
+                js.append(j)
+            ind = 1e200 if js is None else float(
+                np.expm1(np.log1p(np.array(js, dtype=float)).mean()))
+            if not 0.0 <= ind <= 1e100:
+                ind = 1e200
+            out["independent"] = repr(ind)
     tmp = spec["out"] + f".{os.getpid()}.tmp"
     with open(tmp, "w", encoding="utf-8") as f:
         json.dump(out, f)
@@ -796,6 +841,17 @@ def _truth(dom: str, setup_id: str, inst_id: str, rec: dict, budget: int,
                              "y": rec["y"]}, res)
             if ev is None:
                 return False
+            if "independent" in ev:
+                from simkit.oracles import ode as oorc
+                if not oorc.rel_close(float(rec["best_f"]),
+                                      float(ev["independent"]), 1e-9):
+                    core.violation(
+                        res, "logged-value-not-true",
+                        f"{where}: logged bestF={rec['best_f']}, but the "
+                        f"documented figure of merit of the logged "
+                        f"controller, computed from simulations of the "
+                        f"training cases alone, is {ev['independent']}")
+                    return False
             if float(ev["value"]) != float(rec["best_f"]):
                 core.violation(
                     res, "logged-value-not-true",
